@@ -314,7 +314,7 @@ def main(prop, args, build, log_):
         # needs many of them in one process life
         n_long = 0
         for _ in range(300 if thorough else 16):
-            n = rng.choice([20, 40, 100] + ([300] if thorough else []))
+            n = rng.choice([20, 40, 100, 300] + ([1000] if thorough else []))
             mix = rng.choice(["any", "any", "one_kind", "no_stall"])
             if mix == "one_kind":
                 k = rng.randrange(len(CATALOGUE))
@@ -333,7 +333,7 @@ def main(prop, args, build, log_):
             plans.append(gen_c17(seed, idx, h))
             idx += 1
             n_long += 1
-        exhaustive_note = "all ordered selections of <= %d behaviours from a catalogue of %d (%d histories) + sampled histories of length 3-4 + %d long histories of 20-%d behaviours" % (max_len, len(CATALOGUE), len(hs), n_long, 300 if thorough else 100)
+        exhaustive_note = "all ordered selections of <= %d behaviours from a catalogue of %d (%d histories) + sampled histories of length 3-4 + %d long histories of 20-%d behaviours" % (max_len, len(CATALOGUE), len(hs), n_long, 1000 if thorough else 300)
     known = [k for k in parse_known() if k["property"] == prop]
     known_hits = {}
     for i, k in enumerate(known):
